@@ -1,7 +1,11 @@
 /-
 Props/C05.lean — superposition: collections and sumup add fields; fields are linear in excitation.
+Marshalling part (level 2) first; at the end the kernel part: every ported closed-form kernel
+(Dipole, straight segment, Circle, Cuboid, Triangle, Tetrahedron) is linear in its excitation
+(moment / current / polarization), over ℝ (helper algebra in Lemmas/KernAlgebra.lean).
 -/
 import MagpyVerif.Lemmas.Level2Shape
+import MagpyVerif.Lemmas.KernAlgebra
 namespace MagpyVerif.C05
 open MagpyVerif MagpyVerif.Level2
 variable {G V : Type}
@@ -126,5 +130,73 @@ example : (∃ out0, getBH exFlip exMin exMax exEntries exSensors false false .n
   intro k hk
   simp only [exSensors, List.mem_cons, List.not_mem_nil, or_false] at hk
   rcases hk with rfl | rfl <;> simp [pixNum]
+
+
+/-! ### linearity of the kernels in the excitation -/
+section kernels
+open MagpyVerif.Kern
+
+/-- C05 (Triangle): `triangle_Bfield` is linear in the polarization — the polarization enters only
+through the surface charge σ = n·J, a factor of the result -/
+theorem triangleB_linear (a b : ℝ) (v0 v1 v2 p1 p2 x : V3 ℝ) :
+    triangleB v0 v1 v2 (vs a p1 + vs b p2) x =
+      vs a (triangleB v0 v1 v2 p1 x) + vs b (triangleB v0 v1 v2 p2 x) :=
+  triangleB_linear' mu0R a b v0 v1 v2 p1 p2 x
+
+/-- C05 (Triangle): all four outputs of `BHJM_triangle` are linear in the polarization -/
+theorem bhjmTriangle_linear (a b : ℝ) (f : Field) (v0 v1 v2 p1 p2 x : V3 ℝ) :
+    bhjmTriangle f v0 v1 v2 (vs a p1 + vs b p2) x =
+      vs a (bhjmTriangle f v0 v1 v2 p1 x) + vs b (bhjmTriangle f v0 v1 v2 p2 x) :=
+  bhjmTriangle_linear' mu0R a b f v0 v1 v2 p1 p2 x
+
+/-- C05 (Tetrahedron): B, H, J, M of `BHJM_magnet_tetrahedron` are linear in the polarization, for
+observers inside and outside (the inside mask and the chirality fix depend on the geometry only) -/
+theorem bhjmTetra_linear (a b : ℝ) (f : Field) (v0 v1 v2 v3 p1 p2 x : V3 ℝ) :
+    bhjmTetra f v0 v1 v2 v3 (vs a p1 + vs b p2) x =
+      vs a (bhjmTetra f v0 v1 v2 v3 p1 x) + vs b (bhjmTetra f v0 v1 v2 v3 p2 x) :=
+  bhjmTetra_linear' mu0R a b f v0 v1 v2 v3 p1 p2 x
+
+/-- C05 (Circle): `current_circle_Hfield` is the field of unit current times the current, and it
+fails to converge (within `fuel`) for a current iff it does for unit current -/
+theorem circleHcyl_proportional (fuel : Nat) (r0 r z i0 : ℝ) :
+    circleHcyl fuel r0 r z i0 = (circleHcyl fuel r0 r z 1).map (fun h => (i0 * h.1, i0 * h.2)) :=
+  circleHcyl_current_factor mu0R fuel r0 r z i0
+
+/-- C05 (Circle): `current_circle_Hfield` is linear in the current `i0` (whenever both cel
+iterations return, i.e. the two single-current results are `some`) -/
+theorem circleHcyl_linear (a b : ℝ) (fuel : Nat) (r0 r z i1 i2 : ℝ) (h1 h2 : ℝ × ℝ)
+    (e1 : circleHcyl fuel r0 r z i1 = some h1) (e2 : circleHcyl fuel r0 r z i2 = some h2) :
+    circleHcyl fuel r0 r z (a * i1 + b * i2) = some (a * h1.1 + b * h2.1, a * h1.2 + b * h2.2) :=
+  circleHcyl_linear' mu0R a b fuel r0 r z i1 i2 h1 h2 e1 e2
+
+/-- C05 (Polyline): `current_polyline_Hfield` of one segment is linear in the current -/
+theorem segmentH_linear (a b c1 c2 : ℝ) (p1 p2 po : V3 ℝ) :
+    segmentH (a * c1 + b * c2) p1 p2 po = vs a (segmentH c1 p1 p2 po) + vs b (segmentH c2 p1 p2 po) :=
+  segmentH_linear' mu0R a b c1 c2 p1 p2 po
+
+/-- C05 (Dipole): `dipole_Hfield` is linear in the moment -/
+theorem dipoleH_linear (a b : ℝ) (m1 m2 x : V3 ℝ) :
+    dipoleH (vs a m1 + vs b m2) x = vs a (dipoleH m1 x) + vs b (dipoleH m2 x) :=
+  dipoleH_linear' mu0R a b m1 m2 x
+
+/-- C05 (Cuboid): `magnet_cuboid_Bfield` (general case) is linear in the polarization: the six
+closed-form factors and the octant sign flips depend on geometry only -/
+theorem cuboidB_linear (a b : ℝ) (dim p1 p2 obs : V3 ℝ) :
+    cuboidB dim (vs a p1 + vs b p2) obs = vs a (cuboidB dim p1 obs) + vs b (cuboidB dim p2 obs) :=
+  cuboidB_linear' mu0R a b dim p1 p2 obs
+
+-- non-vacuity: J of a tetrahedron at an inside observer is the (combined) polarization itself
+example : bhjmTetra .J (⟨0, 0, 0⟩ : V3 ℝ) ⟨1, 0, 0⟩ ⟨0, 1, 0⟩ ⟨0, 0, 1⟩
+    (vs 2 ⟨1, 0, 0⟩ + vs 3 ⟨0, 1, 0⟩) ⟨1 / 4, 1 / 4, 1 / 4⟩ = ⟨2, 3, 0⟩ := by
+  have h : tetraInside (⟨0, 0, 0⟩ : V3 ℝ) ⟨1, 0, 0⟩ ⟨0, 1, 0⟩ ⟨0, 0, 1⟩ ⟨1 / 4, 1 / 4, 1 / 4⟩ = true := by
+    simp [tetraInside, det3, n]
+    norm_num
+  simp only [bhjmTetra, h, if_true]
+  apply V3.ext' <;> simp [vs]
+-- the hypotheses of `circleHcyl_linear` hold as soon as the unit-current evaluation converges
+example (fuel : Nat) (r0 r z : ℝ) (h : ℝ × ℝ) (e : circleHcyl fuel r0 r z 1 = some h) :
+    circleHcyl fuel r0 r z 5 = some (5 * h.1, 5 * h.2) := by
+  rw [circleHcyl_proportional, e]; rfl
+end kernels
 
 end MagpyVerif.C05
